@@ -1068,6 +1068,11 @@ class DFA:
         """
 
         for finish in target_states:
+            owner = ProgramData.lookup(finish, DTAG.PARENT, recurse_upwards=False, recurse_downwards=False)
+            if isinstance(owner, LoopNode) and owner.end_state is finish:
+                # A break which did not become a transition of its own (e.g. inside a condition) jumps straight here and runs what
+                # follows the loop itself
+                owner.after_break_actions.extend(actions)
             for incoming, trans in self.transitions_pointing_to(finish, include_states=True):
                 for action in actions:
                     if action.is_timing_strict() and any(not x.error_handling for x in finish.transitions):
